@@ -16,7 +16,7 @@ import sqlite3
 from .env import ENV, real_connect
 
 
-class Injected(Exception):
+class Injected(BaseException):
     pass
 
 
@@ -88,14 +88,18 @@ class LockHook:
         self.other = None
         self.spin_cap = spin_cap
         self.enabled = True
-        if mode in ('held', 'release'):
+        if mode in ('held', 'release'):  # 'none' and 'at' start unlocked
             self.take()
 
     def take(self):
         if self.other is None:
-            self.other = real_connect(self.dbpath, timeout=0,
-                                      isolation_level=None)
-            self.other.execute('BEGIN IMMEDIATE')
+            other = real_connect(self.dbpath, timeout=0, isolation_level=None)
+            try:
+                other.execute('BEGIN IMMEDIATE')
+            except sqlite3.OperationalError:
+                other.close()     # the library holds the lock right now
+                return
+            self.other = other
 
     def release(self):
         if self.other is not None:
